@@ -133,6 +133,12 @@ func checkC04(w *World, r *Report) {
 	r.Rule("R04.15", "stray characters are rejected: the characters the tokeniser consumes silently — LexCommon's skip arm and the look-ahead helper isWhitespace — are exactly XPath ExprWhitespace {SP, TAB, CR, LF}", 2)
 	r.guard("R04.15", func() { c04Whitespace(w, r) })
 
+	r.Rule("R04.16", "the leafref lexer hands the parser a name or function token only from its own LexName: every CommonLex.Lex* method that can return NAMETEST or FUNC is overridden by the leafref lexer (so '*' is not a node identifier)", 2)
+	r.guard("R04.16", func() { c04LeafrefOverrides(w, r) })
+
+	r.Rule("R04.17", "a QName's local part is an NCName: every character from which a LexName starts collecting a name token has passed IsNameStartChar (the first by LexCommon, the one after ':' in LexName itself)", 5)
+	r.guard("R04.17", func() { c04LocalPartStart(w, r) })
+
 	r.Rule("R04.10", "number tokens: the characters LexNum collects are a subset of XPath Number's alphabet {0-9 .}", 1)
 	r.guard("R04.10", func() {
 		f := w.Method("xpath", "CommonLex", "LexNum")
